@@ -53,11 +53,33 @@ class P:
         return " + ".join(mon(k, v) for k, v in sorted(a.t.items())).replace("+ -", "- ")
 
 
-def P_div(a, b):
-    """a / b when b is a single monomial (Laurent division); None otherwise"""
-    b = P.lift(b)
-    if len(b.t) != 1:
+ATOMS = {}
+
+
+def atom(b):
+    """an opaque symbol standing for the (non-monomial) polynomial b, so that 1/b and b**0.5 stay representable"""
+    name = "(" + repr(b) + ")"
+    ATOMS[name] = b
+    return name
+
+
+def atom_of(p, exponent):
+    """if p == atom(b)**exponent (coefficient 1) return b, else None"""
+    if len(p.t) != 1:
         return None
+    (k, v), = p.t.items()
+    if v != 1 or len(k) != 1 or k[0][1] != exponent or k[0][0] not in ATOMS:
+        return None
+    return ATOMS[k[0][0]]
+
+
+def P_div(a, b):
+    """a / b: Laurent division when b is a single monomial, else a * atom(b)^-1"""
+    b = P.lift(b)
+    if len(b.t) == 0:
+        return None
+    if len(b.t) != 1:
+        return P.lift(a) * P({((atom(b), Fr(-1)),): Fr(1)})
     (k, v), = b.t.items()
     invm = P({tuple((s, -e) for s, e in k): Fr(1) / v})
     return P.lift(a) * invm
@@ -76,4 +98,6 @@ def P_pow(a, n):
             return P({tuple((s, e * int(n)) for s, e in k): v ** int(n)})
         if v == 1:
             return P({tuple((s, e * Fr(n).limit_denominator(64)) for s, e in k): Fr(1)})
+    if a.t:
+        return P({((atom(a), Fr(n).limit_denominator(64)),): Fr(1)})
     return None
